@@ -2,10 +2,10 @@ package main
 
 import (
 	"fmt"
-	"math/rand"
+	"time"
 
 	"verif/harness/internal/drv"
-	"verif/harness/internal/mixed"
+	"verif/harness/internal/dvc"
 )
 
 func main() {
@@ -19,26 +19,36 @@ func main() {
 		if err != nil {
 			return err
 		}
-		defer w.Kill()
-		wd, err := mixed.New(w, rand.New(rand.NewSource(5)), mixed.Opts{Types: []string{"lm", "nj", "kv"}, Tag: "x"})
+		cl := &dvc.Client{W: w}
+		main, _ := cl.NewRepo("main")
+		cl.NewInstance(main, "keyvalue", "kv", nil)
+		side, _ := cl.NewRepo("side")
+		cl.NewInstance(side, "keyvalue", "skv", nil)
+		w.Post("/api/node/"+side+"/skv/key/k", []byte("side"))
+		cl.Commit(side)
+		ch, _ := cl.NewVersion(side)
+		fmt.Println("side", side[:8], "child", ch[:8])
+		err = w.API("rpc.repo_delete", map[string]string{"uuid": side}, nil)
+		fmt.Println("delete:", err)
+		time.Sleep(500 * time.Millisecond)
+		// something else happens in the main repo
+		w.Post("/api/node/"+main+"/kv/key/a", []byte("1"))
+		cl.Commit(main)
+		cl.NewVersion(main)
+		repos, _, _ := cl.Repos()
+		fmt.Println("repos before restart:", len(repos))
+		w.Kill()
+		w, err = drv.StartWorker(bin, dir, drv.StartOpts{})
 		if err != nil {
 			return err
 		}
-		u := wd.Root
-		try := func(m, p string, body []byte) {
-			w.Watchdog = 20e9
-			r, err := w.HTTP(m, "/api/node/"+u+"/"+p, body)
-			fmt.Printf("%s %s -> %v %v\n", m, p, drv.Trunc(r.String(), 200), err)
+		cl.W = w
+		repos, _, _ = cl.Repos()
+		fmt.Println("repos after restart:", len(repos))
+		for r := range repos {
+			fmt.Println("  ", r[:8])
 		}
-		try("POST", "lm/merge", []byte("[]"))
-		try("POST", "lm/merge", []byte("[5]"))
-		try("GET", "lm/proximity/5", nil)
-		try("GET", "lm/proximity/5_6", nil)
-		try("POST", "nj/key/1?u=a", []byte(`{"bodyid":1,"x":1,"x_time":5}`))
-		try("GET", "nj/all", nil)
-		try("POST", "nj/key/2?u=a", []byte(`{"bodyid":2,"y":1}`))
-		try("GET", "nj/fieldtimes", nil)
-		try("GET", "nj/key/2", nil)
+		w.Kill()
 		c.Case("a", true)
 		c.Case("b", true)
 		return nil
